@@ -83,6 +83,11 @@ def as_symseq(interp, it):
         n = z3.simplify(n) if isinstance(n, z3.ExprRef) else n
         r = V.SymSeq(n, lambda i: tuple(p.get(i) for p in parts))
         r.zip_parts = parts
+        keyed = [p for p in parts if p.distinct is True and isinstance(_try(lambda: p.get(z3.Int("I0!canon"))), V.TRef)]
+        if keyed:
+            kp = keyed[0]
+            kidx = seq_index_fn(interp, kp)
+            r.at_key = lambda t: tuple((V.TRef(t) if p is kp else p.get(kidx(t))) for p in parts)
         return r
     if isinstance(it, V.SymMap):
         return it.keys
@@ -94,6 +99,13 @@ def as_symseq(interp, it):
     if hasattr(it, "sym_iter"):
         return it.sym_iter(interp)
     raise Unsupported(f"iteration over {type(it).__name__}")
+
+
+def _try(f):
+    try:
+        return f()
+    except Exception:  # noqa: BLE001
+        return None
 
 
 def conc_seq(xs):
@@ -117,11 +129,15 @@ class MapView:
         m = self.m
         ks = m.keys
         if self.kind == "keys":
+            if not hasattr(ks, "at_key") and ks.distinct is True:
+                ks.at_key = lambda t: V.TRef(t)
             return ks
+        val = m.by_index if m.by_index is not None else (lambda i: m.get(ks.get(i).ref))
         if self.kind == "values":
-            return V.SymSeq(ks.length, lambda i: m.get(ks.get(i).ref))
-        r = V.SymSeq(ks.length, lambda i: (ks.get(i), m.get(ks.get(i).ref)), distinct=ks.distinct)
+            return V.SymSeq(ks.length, val)
+        r = V.SymSeq(ks.length, lambda i: (ks.get(i), val(i)), distinct=ks.distinct)
         r.key_component_distinct = ks.distinct is True
+        r.at_key = lambda t: (V.TRef(t), m.get(t))  # the item whose key is t, without the idx(t) round trip
         return r
 
 
@@ -298,7 +314,7 @@ def map_from_zip(interp, ks: V.SymSeq, vs: V.SymSeq):
         # zip stops at the shorter sequence
         interp.cx.oblige("prim.dict_zip.same_length", lift(ks.length) == vs.length, kind="prim")
     idx = seq_index_fn(interp, ks)
-    return V.SymMap(ks, lambda t: vs.get(idx(t)))
+    return V.SymMap(ks, lambda t: vs.get(idx(t)), by_index=vs.get)
 
 
 def seq_index_fn(interp, ks: V.SymSeq):
@@ -565,7 +581,7 @@ def p_ordereddict(interp, x=None):
     # sequence of (key, value) pairs with duplicate-free keys
     ks = V.SymSeq(s.length, lambda i: s.get(i)[0], distinct=getattr(s, "keys_distinct", None))
     idx = seq_index_fn(interp, ks)
-    return V.SymMap(ks, lambda t: s.get(idx(t))[1])
+    return V.SymMap(ks, lambda t: s.get(idx(t))[1], by_index=lambda i: s.get(i)[1])
 
 
 @prim("collections.OrderedDict.fromkeys")
@@ -646,9 +662,11 @@ class PrefixSum:
 
         # Lemma (proved once per run by induction, see tjv/contracts/theory.py: prefix_sum_monotone):
         # non-negative lengths => off is monotone on [0, n]
-        nonneg = z3.ForAll([j], z3.Implies(z3.And(0 <= j, j < n), ln(j) >= 0))
-        cx.assume(z3.Implies(nonneg, z3.ForAll([i2, j], z3.Implies(z3.And(0 <= i2, i2 <= j, j <= n), self.f(i2) <= self.f(j)),
-                                               patterns=[z3.MultiPattern(self.f(i2), self.f(j))])),
+        # every length sequence in this code base is a sequence of tensor sizes / numels, which are >= 0 [T]
+        cx.assume(z3.ForAll([j], z3.Implies(z3.And(0 <= j, j < n), ln(j) >= 0), patterns=[ln(j)]) if _has_var(ln(j), j)
+                  else (ln(j) >= 0), tag="tensor sizes are non-negative [T]")
+        cx.assume(z3.ForAll([i2, j], z3.Implies(z3.And(0 <= i2, i2 <= j, j <= n), self.f(i2) <= self.f(j)),
+                            patterns=[z3.MultiPattern(self.f(i2), self.f(j))]),
                   tag="prefix-sum-monotone (lemma proved by induction: theory.prefix_sum_monotone)")
 
         # block lookup: blk(c) is the index of the block containing position c (canonical function, so that two
@@ -704,12 +722,15 @@ def symbolic_comp(interp, e, g, seq: V.SymSeq, frame, kind):
     from .interp import Frame
     cx = interp.cx
 
-    def body_at(i):
+    def body_on(elem):
         f2 = Frame(frame.func, frame.module, parent=frame, cls=frame.cls)
         f2.qual = getattr(frame, "qual", "?")
         f2.self_obj = frame.self_obj
-        interp.assign(g.target, seq.get(i), f2)
+        interp.assign(g.target, elem, f2)
         return interp.comp_elt(e, f2, kind)
+
+    def body_at(i):
+        return body_on(seq.get(i))
 
     # one Skolem evaluation: explores raise paths of the body and emits the body's obligations
     i0 = cx.fresh_int("ci")
@@ -718,12 +739,12 @@ def symbolic_comp(interp, e, g, seq: V.SymSeq, frame, kind):
     r0 = body_at(i0)
     decs = list(cx.decisions[pos0:cx.pos])
 
-    def pure(i):
+    def pure(i, elem=None):
         mark, emark, pmark = len(cx.obligations), len(cx.events), len(cx.pc)
         cx.replay_stack.append({"decs": decs, "pos": 0})
         cx.muted += 1
         try:
-            r = body_at(i)
+            r = body_at(i) if elem is None else body_on(elem)
         finally:
             cx.muted -= 1
             cx.replay_stack.pop()
@@ -751,8 +772,26 @@ def symbolic_comp(interp, e, g, seq: V.SymSeq, frame, kind):
             if hasattr(seq, "index_of"):
                 ks.index_of = seq.index_of
         idx = seq_index_fn(interp, ks)
-        return V.SymMap(ks, lambda t: pure(idx(t))[1])
+        if hasattr(seq, "at_key") and isinstance(seq.get(i0), (V.TRef, tuple)) and _key_is_iteration_key(seq, k0, i0):
+            getter = lambda t: pure(None, elem=seq.at_key(t))[1]
+        else:
+            getter = lambda t: pure(idx(t))[1]
+        return V.SymMap(ks, getter, by_index=lambda i: pure(i)[1])
     raise Unsupported(kind)
+
+
+def _key_is_iteration_key(seq, k0, i0):
+    """the dict-comprehension key is the key component that seq.at_key() is indexed by"""
+    e = seq.get(i0)
+    if isinstance(e, V.TRef):
+        return e.ref.eq(k0.ref)
+    if isinstance(e, tuple):
+        probe = z3.Const("probe!t", TenS)
+        ak = seq.at_key(probe)
+        for a, b in zip(ak, e):
+            if isinstance(a, V.TRef) and a.ref.eq(probe) and isinstance(b, V.TRef) and b.ref.eq(k0.ref):
+                return True
+    return False
 
 
 def _elem_from_distinct(seq, k0, I0):
